@@ -676,3 +676,230 @@ Proof.
   destruct (inv_wf h0 ls e n Hwf Hfr height false h Hi) as (W & _ & E & _).
   split; [exact W|exact E].
 Qed.
+
+(* ------------------------------------------------------------------------------------- *)
+(* C2: readers whose loads interleave with the writer's stores                            *)
+(* ------------------------------------------------------------------------------------- *)
+
+(* a level-0 traversal (iterator SeekToFirst/Next, the loop at the end of Find): r_cur is
+   the node whose next[0] is loaded next, r_done the nodes visited so far (head first) *)
+Record reader := mkR { r_cur : option addr; r_done : list addr }.
+
+Definition r_init : reader := mkR (Some head) [].
+
+(* one atomic load *)
+Definition r_step (h : heap) (r : reader) : reader :=
+  match r_cur r with
+  | None => r
+  | Some a => mkR (load h a 0) (r_done r ++ [a])
+  end.
+
+Record sys := mkSys { s_heap : heap; s_ops : list wop; s_readers : list reader }.
+
+(* the scheduler: the writer performs its next store, or reader i performs its next load *)
+Inductive tick := TW | TR (i : nat).
+
+Fixpoint upd_nth {T : Type} (i : nat) (f : T -> T) (l : list T) : list T :=
+  match l, i with
+  | [], _ => []
+  | x :: r, O => f x :: r
+  | x :: r, S i' => x :: upd_nth i' f r
+  end.
+
+Definition sys_step (n : addr) (prev : nat -> addr) (s : sys) (t : tick) : sys :=
+  match t with
+  | TW => match s_ops s with
+          | [] => s
+          | o :: r => mkSys (wexec n prev (s_heap s) o) r (s_readers s)
+          end
+  | TR i => mkSys (s_heap s) (s_ops s) (upd_nth i (r_step (s_heap s)) (s_readers s))
+  end.
+
+Definition sys_run (n : addr) (prev : nat -> addr) (s : sys) (sched : list tick) : sys :=
+  fold_left (sys_step n prev) sched s.
+
+(* a reader positioned somewhere on the chain as it was before the insert began *)
+Definition reader_ok (h0 : heap) (ls : nat -> list addr) (r : reader) : Prop :=
+  exists rest, path h0 0 (r_cur r) rest /\ r_done r ++ rest = head :: ls 0.
+
+Lemma upd_nth_Forall : forall (T : Type) (P : T -> Prop) (f : T -> T) l i,
+  (forall x, P x -> P (f x)) -> Forall P l -> Forall P (upd_nth i f l).
+Proof.
+  intros T P f l. induction l as [|x r IH]; intros i Hf H; [destruct i; constructor|].
+  inversion H as [|? ? Hx Hr]; subst. destruct i as [|i]; cbn [upd_nth].
+  - constructor; [apply Hf; exact Hx|exact Hr].
+  - constructor; [exact Hx|apply IH; assumption].
+Qed.
+
+Lemma upd_nth_length : forall (T : Type) (f : T -> T) l i, length (upd_nth i f l) = length l.
+Proof.
+  intros T f l. induction l as [|x r IH]; intros i; [destruct i; reflexivity|].
+  destruct i; cbn [upd_nth length]; [reflexivity|f_equal; apply IH].
+Qed.
+
+Section Readers.
+Variables (h0 : heap) (ls : nat -> list addr) (e : mentry) (n : addr).
+Hypothesis Hwf : wf_heap h0 ls.
+Hypothesis Hfresh : fresh_node h0 ls n e.
+
+Let prev (lv : nat) : addr := pred_of h0 e (ls lv).
+Let old : list addr := head :: ls 0.
+Let new : list addr := head :: linked_in h0 e n (ls 0).
+
+Definition RI (j : nat) (h : heap) (r : reader) : Prop :=
+  exists rest, path h 0 (r_cur r) rest /\
+    (r_done r ++ rest = old \/ (1 <= j /\ r_done r ++ rest = new)).
+
+Lemma RI_link1 : forall j h r, Inv h0 ls e n j false h -> RI j h r ->
+  RI j (wexec n prev h (Link1 j)) r.
+Proof.
+  intros j h r Hi (rest & Hp & Hd). exists rest. split; [|exact Hd]. cbn [wexec].
+  destruct (Nat.eq_dec j 0) as [->|Hj].
+  - destruct Hd as [Hd|[Hd _]]; [|lia].
+    apply seg_store_notin; [|exact Hp]. intros Hin.
+    apply (n_notin h0 ls e n Hfresh 0). fold old. rewrite <- Hd. apply in_or_app. right. exact Hin.
+  - apply seg_store_other; [exact Hj|exact Hp].
+Qed.
+
+Lemma RI_link2 : forall j h r, Inv h0 ls e n j true h -> RI j h r ->
+  RI (S j) (wexec n prev h (Link2 j)) r.
+Proof.
+  intros j h r Hi (rest & Hp & Hd). cbn [wexec].
+  destruct (Nat.eq_dec j 0) as [->|Hj].
+  - destruct Hd as [Hd|[Hd _]]; [|lia].
+    destruct (in_dec Nat.eq_dec (prev 0) rest) as [Hin|Hnin].
+    + apply in_split in Hin. destruct Hin as (r1 & r2 & ->).
+      assert (Hnd : NoDup old).
+      { unfold old. eapply path_nodup. apply Hwf. }
+      pose proof (chain_split h0 ls e 0) as Hc. fold old in Hc. fold (prev 0) in Hc.
+      assert (E : (r_done r ++ r1) ++ prev 0 :: r2 = old) by (rewrite <- app_assoc; exact Hd).
+      rewrite Hc in E.
+      assert (Hnd' : NoDup ((r_done r ++ r1) ++ prev 0 :: r2)) by (rewrite E, <- Hc; exact Hnd).
+      destruct (nodup_split_unique _ _ _ _ _ Hnd' E) as [E1 E2].
+      exists (r1 ++ prev 0 :: n :: r2). split.
+      * apply path_splice.
+        -- exact Hp.
+        -- intros Hin. apply (n_notin h0 ls e n Hfresh 0). fold old. rewrite <- Hd.
+           apply in_or_app. right. exact Hin.
+        -- apply Hi.
+        -- destruct Hi as (_ & _ & _ & _ & Hl). rewrite E2. apply Hl. reflexivity.
+      * right. split; [lia|]. unfold new. rewrite (linked_split h0 ls e n 0).
+        fold (prev 0). rewrite <- E1, <- E2, <- app_assoc. reflexivity.
+    + exists rest. split; [|left; exact Hd]. apply seg_store_notin; assumption.
+  - exists rest. split; [apply seg_store_other; [exact Hj|exact Hp]|].
+    destruct Hd as [Hd|[_ Hd]]; [left; exact Hd|right; split; [lia|exact Hd]].
+Qed.
+
+Lemma RI_rstep : forall j h r, RI j h r -> RI j h (r_step h r).
+Proof.
+  intros j h r (rest & Hp & Hd). unfold r_step. destruct (r_cur r) as [a|] eqn:C.
+  - destruct rest as [|b rest].
+    + apply seg_nil_inv in Hp. discriminate.
+    + pose proof (seg_start _ _ _ _ _ _ Hp) as Eb. injection Eb as <-.
+      apply seg_load in Hp. destruct Hp as [_ Hp].
+      exists rest. cbn [r_cur r_done]. split; [exact Hp|].
+      rewrite <- app_assoc. exact Hd.
+  - exists rest. rewrite C. split; assumption.
+Qed.
+
+Definition pending (j : nat) (half : bool) (c : nat) : list wop :=
+  if half then Link2 j :: insert_ops (S j) c else insert_ops j c.
+
+Definition G (s : sys) : Prop :=
+  exists j half c, Inv h0 ls e n j half (s_heap s) /\ s_ops s = pending j half c /\
+                   Forall (RI j (s_heap s)) (s_readers s).
+
+Lemma G_step : forall s t, G s -> G (sys_step n prev s t).
+Proof.
+  intros s t (j & half & c & Hi & Ho & Hr). destruct t as [|i]; cbn [sys_step].
+  - destruct (s_ops s) as [|o r] eqn:Eo; [exists j, half, c; rewrite Eo; auto|].
+    destruct half; cbn [pending] in Ho.
+    + injection Ho as -> ->. exists (S j), false, c. cbn [s_heap s_ops s_readers].
+      split; [apply (inv_link2 h0 ls e n Hfresh); exact Hi|]. split; [reflexivity|].
+      eapply Forall_impl; [|exact Hr]. intros r. apply RI_link2. exact Hi.
+    + destruct c as [|c]; cbn [insert_ops] in Ho; [discriminate|].
+      injection Ho as -> ->. exists j, true, c. cbn [s_heap s_ops s_readers].
+      split; [apply (inv_link1 h0 ls e n Hfresh); exact Hi|]. split; [reflexivity|].
+      eapply Forall_impl; [|exact Hr]. intros r. apply RI_link1. exact Hi.
+  - exists j, half, c. cbn [s_heap s_ops s_readers]. split; [exact Hi|]. split; [exact Ho|].
+    apply upd_nth_Forall; [|exact Hr]. intros r. apply RI_rstep.
+Qed.
+
+Lemma G_run : forall sched s, G s -> G (sys_run n prev s sched).
+Proof.
+  induction sched as [|t sched IH]; intros s H; [exact H|].
+  cbn [sys_run fold_left]. apply IH. apply G_step. exact H.
+Qed.
+
+Lemma G_init : forall height rs, Forall (reader_ok h0 ls) rs ->
+  G (mkSys h0 (insert_prog height) rs).
+Proof.
+  intros height rs Hr. exists 0, false, height. cbn [s_heap s_ops s_readers].
+  split; [apply inv_init; assumption|]. split; [reflexivity|].
+  eapply Forall_impl; [|exact Hr]. intros r (rest & Hp & Hd).
+  exists rest. split; [exact Hp|left; exact Hd].
+Qed.
+
+Lemma sys_run_length : forall sched s,
+  length (s_readers (sys_run n prev s sched)) = length (s_readers s).
+Proof.
+  induction sched as [|t sched IH]; intros s; [reflexivity|].
+  change (length (s_readers (sys_run n prev (sys_step n prev s t) sched)) = length (s_readers s)).
+  rewrite IH.
+  destruct t as [|i]; cbn [sys_step].
+  - destruct (s_ops s); reflexivity.
+  - cbn [s_readers]. apply upd_nth_length.
+Qed.
+
+Lemma G_reader : forall s r, G s -> In r (s_readers s) ->
+  (exists rest, r_done r ++ rest = old \/ r_done r ++ rest = new) /\
+  (r_cur r = None ->
+     let out := ents (s_heap s) (tl (r_done r)) in
+     (out = ents h0 (ls 0) \/ out = insert e (ents h0 (ls 0))) /\ sorted out /\
+     (forall x, In x (ents h0 (ls 0)) -> In x out)).
+Proof.
+  intros s r (j & half & c & Hi & _ & Hr) Hin.
+  rewrite Forall_forall in Hr. destruct (Hr r Hin) as (rest & Hp & Hd).
+  split; [exists rest; destruct Hd as [Hd|[_ Hd]]; [left|right]; exact Hd|].
+  intros Hc out. rewrite Hc in Hp. inversion Hp; subst. rewrite app_nil_r in Hd.
+  assert (He : forall a, entry_of (s_heap s) a = entry_of h0 a) by apply Hi.
+  assert (Hs0 : sorted (ents h0 (ls 0))) by apply Hwf.
+  unfold out. rewrite (ents_ext h0 (s_heap s) _ He).
+  destruct Hd as [Hd|[_ Hd]]; unfold old, new in Hd; rewrite Hd; cbn [tl].
+  - split; [left; reflexivity|]. split; [exact Hs0|auto].
+  - rewrite (ents_linked_in h0 e n (ls 0) Hs0 (entry_n h0 ls e n Hfresh)).
+    split; [right; reflexivity|]. split; [apply insert_sorted; exact Hs0|].
+    intros x Hx. apply insert_in. right. exact Hx.
+Qed.
+
+End Readers.
+
+Lemma reader_ok_init : forall h0 ls, wf_heap h0 ls -> reader_ok h0 ls r_init.
+Proof.
+  intros h0 ls Hwf. exists (head :: ls 0). split; [apply Hwf|reflexivity].
+Qed.
+
+(* C2: any number of readers, each load interleaved arbitrarily with the stores of one
+   Insert (readers may already be under way when the insert begins, may start during it,
+   and may still run after it has finished). Whatever a reader has seen so far is a prefix
+   of the old or of the new chain; a reader that has reached nil returns a sorted list that
+   is exactly the old content or the old content with e inserted. *)
+Theorem C18_reader : forall h0 ls e n height rs sched,
+  wf_heap h0 ls -> fresh_node h0 ls n e ->
+  Forall (reader_ok h0 ls) rs ->
+  let prev := fun lv => pred_of h0 e (ls lv) in
+  let s := sys_run n prev (mkSys h0 (insert_prog height) rs) sched in
+  length (s_readers s) = length rs /\
+  forall r, In r (s_readers s) ->
+    (exists rest, r_done r ++ rest = head :: ls 0 \/
+                  r_done r ++ rest = head :: linked_in h0 e n (ls 0)) /\
+    (r_cur r = None ->
+       let out := ents (s_heap s) (tl (r_done r)) in
+       (out = ents h0 (ls 0) \/ out = insert e (ents h0 (ls 0))) /\ sorted out /\
+       (forall x, In x (ents h0 (ls 0)) -> In x out)).
+Proof.
+  intros h0 ls e n height rs sched Hwf Hfr Hrs prev s. split.
+  - unfold s, prev. rewrite sys_run_length. reflexivity.
+  - intros r Hin. apply (G_reader h0 ls e n Hwf Hfr s r); [|exact Hin].
+    unfold s, prev. apply G_run; [exact Hfr|]. apply G_init; assumption.
+Qed.
